@@ -500,6 +500,28 @@ class Flow:
                 return fl._expand_comp(n, node, depth, _stack)
             visit_SetComp = visit_GeneratorExp = visit_DictComp = visit_ListComp
 
+            def _splice(self, elts):
+                out = []
+                for a in elts:
+                    if isinstance(a, ast.Starred) and isinstance(a.value, (ast.Tuple, ast.List)):
+                        out.extend(a.value.elts)          # f(x, *(a, b)) is f(x, a, b)
+                    else:
+                        out.append(a)
+                return out
+
+            def visit_Call(self, n):
+                n = self.generic_visit(n)
+                if any(isinstance(a, ast.Starred) for a in n.args):
+                    n.args = self._splice(n.args)
+                return n
+
+            def visit_List(self, n):
+                n = self.generic_visit(n)
+                if any(isinstance(a, ast.Starred) for a in n.elts):
+                    n.elts = self._splice(n.elts)
+                return n
+            visit_Tuple = visit_List
+
         return T().visit(copy.deepcopy(expr))
 
     def _expand_comp(self, comp, node, depth, stack):
